@@ -222,6 +222,12 @@ func (p *nriPlugin) syncWithNRI(pods []*api.PodSandbox, containers []*api.Contai
 	 */
 	ctrs := m.cache.GetContainers()
 	for _, c := range ctrs {
+		if _, ok := c.GetPod(); !ok {
+			nri.Info("discovered container %s (%s) without a pod, ignoring it...",
+				c.PrettyName(), c.GetID())
+			released = append(released, c)
+			continue
+		}
 		switch c.GetState() {
 		case cache.ContainerStateRunning, cache.ContainerStateCreated:
 			nri.Info("discovered created/running container %s (%s)...",
@@ -333,7 +339,10 @@ func (p *nriPlugin) StopPodSandbox(ctx context.Context, podSandbox *api.PodSandb
 	b := metrics.Block()
 	defer b.Done()
 
-	pod, _ := m.cache.LookupPod(podSandbox.GetId())
+	pod, ok := m.cache.LookupPod(podSandbox.GetId())
+	if !ok {
+		return nil
+	}
 	released := slices.Clone(pod.GetContainers())
 	m.agent.PurgePodResources(pod.GetNamespace(), pod.GetName())
 
@@ -369,7 +378,10 @@ func (p *nriPlugin) RemovePodSandbox(ctx context.Context, podSandbox *api.PodSan
 
 	m := p.resmgr
 
-	pod, _ := m.cache.LookupPod(podSandbox.GetId())
+	pod, ok := m.cache.LookupPod(podSandbox.GetId())
+	if !ok {
+		return nil
+	}
 	released := slices.Clone(pod.GetContainers())
 	m.agent.PurgePodResources(pod.GetNamespace(), pod.GetName())
 
@@ -409,6 +421,15 @@ func (p *nriPlugin) CreateContainer(ctx context.Context, pod *api.PodSandbox, co
 	defer m.Unlock()
 	b := metrics.Block()
 	defer b.Done()
+
+	if old, ok := m.cache.LookupContainer(container.GetId()); ok {
+		// A duplicate creation request. Don't leak what the known instance holds.
+		nri.Warn("%s: container %s already exists, releasing its resources", event, old.GetID())
+		p.unmapContainer(old)
+		if err := m.policy.ReleaseResources(old); err != nil {
+			nri.Error("%s: failed to release existing instance %s", event, old.GetID())
+		}
+	}
 
 	c, err := m.cache.InsertContainer(container, cache.WithContainerState(cache.ContainerStateCreating))
 	if err != nil {
@@ -533,6 +554,10 @@ func (p *nriPlugin) UpdateContainer(ctx context.Context, pod *api.PodSandbox, co
 	c, ok := m.cache.LookupContainer(container.Id)
 	if !ok {
 		return nil, nil
+	}
+	if _, ok := c.GetPod(); !ok {
+		return nil, fmt.Errorf("failed to update resources: pod %s of container %s not found",
+			c.GetPodID(), c.GetID())
 	}
 
 	if realUpdates := c.SetResourceUpdates(res); !realUpdates {
